@@ -652,3 +652,59 @@ def inline_locals(fn: ast.AST, e: ast.expr, depth: int = 6,
                 return T(self.d - 1).visit(copy.deepcopy(sa_[n.id]))
             return n
     return ast.fix_missing_locations(T(depth).visit(copy.deepcopy(e)))
+
+
+class _Enum2Range(ast.NodeTransformer):
+    """`for i, x in enumerate(seq): B`  ->  `for i in range(len(seq)):
+    x = seq[i]; B`  (seq a name that the body neither re-binds nor resizes,
+    i not re-bound in the body)."""
+
+    def visit_For(self, n: ast.For) -> ast.AST:
+        self.generic_visit(n)
+        it = n.iter
+        if not (isinstance(it, ast.Call) and isinstance(
+                it.func, ast.Name) and it.func.id == "enumerate" and len(
+                it.args) == 1 and not it.keywords and isinstance(
+                it.args[0], ast.Name) and isinstance(
+                n.target, ast.Tuple) and len(n.target.elts) == 2 and
+                isinstance(n.target.elts[0], ast.Name)):
+            return n
+        seq, iv = it.args[0].id, n.target.elts[0].id
+        for x in ast.walk(ast.Module(body=n.body, type_ignores=[])):
+            if isinstance(x, ast.Name) and isinstance(
+                    x.ctx, (ast.Store, ast.Del)) and x.id in (seq, iv):
+                return n
+            if isinstance(x, ast.Call) and isinstance(
+                    x.func, ast.Attribute) and isinstance(
+                    x.func.value, ast.Name) and x.func.value.id == seq \
+                    and x.func.attr in MUTATORS:
+                return n
+        bind = ast.Assign(
+            targets=[n.target.elts[1]],
+            value=ast.Subscript(value=ast.Name(id=seq, ctx=ast.Load()),
+                                slice=ast.Name(id=iv, ctx=ast.Load()),
+                                ctx=ast.Load()))
+        new = ast.For(
+            target=ast.Name(id=iv, ctx=ast.Store()),
+            iter=ast.Call(func=ast.Name(id="range", ctx=ast.Load()), args=[
+                ast.Call(func=ast.Name(id="len", ctx=ast.Load()),
+                         args=[ast.Name(id=seq, ctx=ast.Load())],
+                         keywords=[])], keywords=[]),
+            body=[bind] + n.body, orelse=n.orelse)
+        ast.copy_location(new, n)
+        for x in ast.walk(bind):
+            ast.copy_location(x, n)
+        for x in ast.walk(new.iter):
+            ast.copy_location(x, n)
+        ast.copy_location(new.target, n)
+        return new
+
+
+def desugared(fi: "FuncInfo") -> "FuncInfo":
+    """The function with `enumerate` loops over a stable sequence written
+    as index loops (a copy; the original is untouched)."""
+    import copy
+    import dataclasses
+    node = ast.fix_missing_locations(
+        _Enum2Range().visit(copy.deepcopy(fi.node)))
+    return dataclasses.replace(fi, node=node)
